@@ -129,6 +129,11 @@ def _merge_command_trees(tree1: CommandTree, tree2: CommandTree) -> None:
     ):
         raise ValueError("]: Incompatible descriptions")
 
+    # Keep the first description given by any plugin; otherwise it is lost (and a later
+    # incompatible description goes unnoticed) when the first plugin did not specify one.
+    if tree1.description is None:
+        tree1.description = tree2.description
+
     _merge_commands(tree1.subtree, tree2.subtree)
 
 
